@@ -119,23 +119,42 @@ func TestVerifC04ProcChild(t *testing.T) {
 // reachable in the copy was complete when it was linked, and the limit copied
 // afterwards is at least the limit at that time.
 func snapshotShared(path string) []byte {
+	// The mapping has the size the file had when it was mapped. If the
+	// allocation limit copied last exceeds it, the file has grown since and
+	// records reachable from the copied table may lie beyond the copy: map
+	// again and redo the copy (the limit bounds everything linked earlier, so
+	// limit <= len(copy) makes the copy self-contained).
+	for try := 0; try < 8; try++ {
+		out, ok := snapshotSharedOnce(path)
+		if ok {
+			return out
+		}
+	}
+	return nil // still growing: no sample this time
+}
+
+func snapshotSharedOnce(path string) ([]byte, bool) {
 	d, err := mapRO(path)
 	if err != nil {
-		return nil
+		return nil, true
 	}
 	defer syscall.Munmap(d)
 	if len(d) < verifref.PageSize {
-		return nil
+		return nil, true
 	}
 	out := make([]byte, len(d))
 	hdrLen := int(uint32(d[28]) | uint32(d[29])<<8 | uint32(d[30])<<16 | uint32(d[31])<<24)
 	if hdrLen < 32 || hdrLen > 1024 {
 		copy(out, d)
-		return out
+		return out, true
 	}
 	copy(out[hdrLen+4:], d[hdrLen+4:])
 	copy(out[:hdrLen+4], d[:hdrLen+4])
-	return out
+	limit := int(uint32(out[hdrLen]) | uint32(out[hdrLen+1])<<8 | uint32(out[hdrLen+2])<<16 | uint32(out[hdrLen+3])<<24)
+	if limit > len(out) {
+		return nil, false
+	}
+	return out, true
 }
 
 func TestVerifC04Procs(t *testing.T) {
